@@ -276,7 +276,11 @@ func (s *store) dispatchRequests() {
 				req.response <- s.update(req.username, req.password)
 			} else {
 				wdl.Printf("upgrade(local): upgrading '%s'", req.username)
-				if resp := s.update(req.username, req.password); resp.err != nil {
+				// the request was queued at login time: the password may have been changed or the user
+				// removed since then, so only upgrade if the login password is still the current one
+				if ok, _, upgradeable, _, _ := s.dir.Authenticate(req.username, req.password); !ok || !upgradeable {
+					wdl.Printf("upgrade(local): skipping outdated upgrade request for '%s'", req.username)
+				} else if resp := s.update(req.username, req.password); resp.err != nil {
 					wl.Printf("upgrade(local): failed for '%s': %v", req.username, resp.err)
 				} else {
 					wdl.Printf("upgrade(local): successfully upgraded '%s'", req.username)
